@@ -307,7 +307,7 @@ def run_programs(tier, seed, log, model_runs=True, enlarged=False):
                                    "prefixes, differing default namespaces, repeated identifiers; update/add_bundle/bundle()/flattened "
                                    "in sequences; flattened() repeated after changes to the source and to the earlier result); conservation judged on strict record multisets before/after each such call; "
                                    "non-trivial = >=2 of those calls",
-                         extra_cases=fixed_programs(), post=flatten_again,
+                         extra_cases=fixed_programs() + __import__('harness.progs', fromlist=['x']).same_text_programs((), derive=True), post=flatten_again,
                          theorem_note="C09_* over World.add_record / Interp.step")
 
 
